@@ -395,17 +395,22 @@ def extra_monitors(chk, tier):
                 d[key] = qr.convert(cc[key], "1/cm", ctx)
         return d
 
+    import io
+    import contextlib
+
     def build(arg, ctx):
-        with qr.energy_units(ctx):
+        with qr.energy_units(ctx), contextlib.redirect_stdout(io.StringIO()):      # B777 / CP29 print
             return qr.SpectralDensity(ta2, arg)
     for k in range(10 if tier == "quick" else 80):
         ctx = r.choice([None, "1/cm", "eV", "int"])
         comps = []
         for i in range(r.randint(2, 4)):
-            kind = r.choice(["OverdampedBrownian", "UnderdampedBrownian", "Underdamped"]) if i or k % 2 else "Underdamped"
+            kind = r.choice(["OverdampedBrownian", "UnderdampedBrownian", "Underdamped", "B777"]) if i or k % 2 else r.choice(["Underdamped", "B777"])
             cc = {"ftype": kind, "T": 300, "reorg": float(r.choice([20, 50, 100]))}
             if kind == "OverdampedBrownian":
                 cc["cortime"] = float(r.choice([50, 100]))
+            elif kind == "B777":
+                cc["alternative_form"] = True          # the default form needs numpy.math, which NumPy 2 no longer has
             else:
                 cc["freq"], cc["gamma"] = float(r.choice([200, 500])), float(r.choice([10, 30]))
             comps.append(cc)
@@ -450,11 +455,12 @@ def extra_monitors(chk, tier):
                     out.append((o, 1))
                     out.append((o + build(conv(comps[0], "1/cm"), "1/cm"), None))      # a composed left operand is rebuilt, too
                 return out
-            if ctx:
-                with qr.energy_units(ctx):
+            with contextlib.redirect_stdout(io.StringIO()):
+                if ctx:
+                    with qr.energy_units(ctx):
+                        results = prog()
+                else:
                     results = prog()
-            else:
-                results = prog()
             chk.case(("specdens", k, json.dumps(comps), ctx, mode), True)
             chk.count("extra:specdens:%s:%s" % (mode, ctx))
             for res, mult in results:
@@ -476,6 +482,89 @@ def extra_monitors(chk, tier):
             chk.violation("specdens:exception", "spectral density addition raised %r" % (e,), "monitor", c)
 
 
+def cp29_monitors(chk, tier):
+    """SpectralDensity of type CP29: everything that goes wrong because the maker gets the parameters as submitted
+    (signature sd:cp29:declared_units) or because it overwrites the components before it (sd:cp29:composed) is reported under
+    those two signatures (known findings); a CP29 declared in internal units, alone or as the FIRST component, must be right."""
+    import io
+    import contextlib
+    import numpy as np
+    import quantarhei as qr
+    ta = qr.TimeAxis(0.0, 1000, 1.0)
+    r = cm.rng(PID + "cp29")
+
+    def build(arg, ctx):
+        with qr.energy_units(ctx), contextlib.redirect_stdout(io.StringIO()):
+            return qr.SpectralDensity(ta, arg)
+
+    def conv(cc, ctx):
+        d = dict(cc)
+        for key in ("reorg", "freq", "gamma"):
+            if key in d and ctx != "1/cm":
+                d[key] = qr.convert(cc[key], "1/cm", ctx)
+        return d
+
+    def rel(a, b):
+        return float(np.max(np.abs(a - b)) / max(np.max(np.abs(b)), 1e-300))
+    for k in range(3 if tier == "quick" else 12):
+        reorg = float(r.choice([20, 50, 100]))
+        c = {"ftype": "CP29", "T": 300, "reorg": reorg}
+        o = {"ftype": r.choice(["OverdampedBrownian", "UnderdampedBrownian"]), "T": 300, "reorg": float(r.choice([30, 60]))}
+        if o["ftype"] == "OverdampedBrownian":
+            o["cortime"] = float(r.choice([50, 100]))
+        else:
+            o["freq"], o["gamma"] = 300.0, 20.0
+        inp = {"extra": "cp29", "cp29": c, "other": o}
+        try:
+            lam_int = qr.convert(reorg, "1/cm", "int")
+            ref_c = build(conv(c, "int"), "int")           # declared in internal units: the reference
+            ref_o = build(conv(o, "int"), "int")
+            chk.case(("cp29", k, json.dumps(inp)), True)
+            # ---- must hold: internal-units declaration, alone / first component / left operand
+            bad = []
+            if abs(ref_c.lamb - lam_int) > 1e-12 * lam_int:
+                bad.append("lamb of a CP29 declared in internal units is %r, declared %r" % (ref_c.lamb, lam_int))
+            first = build([conv(c, "int"), conv(o, "int")], "int")
+            if rel(first.data, ref_c.data + ref_o.data) > 1e-12 or abs(first.lamb - (ref_c.lamb + ref_o.lamb)) > 1e-12 * first.lamb:
+                bad.append("[CP29, other] declared in internal units is not the sum of its components")
+            with contextlib.redirect_stdout(io.StringIO()):
+                s1 = ref_c + ref_o
+                s2 = ref_o + ref_c
+            for nm, sres in (("CP29 + other", s1), ("other + CP29", s2)):
+                if rel(sres.data, ref_c.data + ref_o.data) > 1e-12 or abs(sres.lamb - (ref_c.lamb + ref_o.lamb)) > 1e-12 * sres.lamb:
+                    bad.append("%s (both declared in internal units) is not the sum" % nm)
+            for b in bad:
+                chk.violation("specdens:cp29_internal_units", b, "monitor", inp)
+            chk.count("extra:cp29:internal_units")
+            # ---- known finding: declaration in other units
+            for ctx in ("1/cm", "eV"):
+                sc = build(conv(c, ctx), ctx)
+                dl = abs(sc.lamb - lam_int) / lam_int
+                dd = rel(sc.data, ref_c.data)
+                with contextlib.redirect_stdout(io.StringIO()):
+                    sm = sc + ref_o
+                ds = rel(sm.data, sc.data + ref_o.data)
+                chk.count("extra:cp29:declared_in:%s" % ctx)
+                if dl > 1e-12 or dd > 1e-9 or ds > 1e-12:
+                    chk.violation("sd:cp29:declared_units", "SpectralDensity CP29 with reorg %g 1/cm declared in %s: lamb %r (internal units expected %r), "
+                                  "data differ from the same component declared in internal units by %.3g, sc + so differs from sc.data + so.data "
+                                  "by %.3g (relative)" % (reorg, ctx, sc.lamb, lam_int, dd, ds), "monitor", inp)
+            # ---- known finding: CP29 as a later component
+            for ctx in ("int", "1/cm"):
+                comp = build([conv(o, ctx), conv(c, ctx)], ctx)
+                alone_c = build(conv(c, ctx), ctx)
+                alone_o = build(conv(o, ctx), ctx)
+                dd = rel(comp.data, alone_o.data + alone_c.data)
+                dl = abs(comp.lamb - (alone_o.lamb + alone_c.lamb)) / abs(alone_o.lamb + alone_c.lamb)
+                chk.count("extra:cp29:composed:%s" % ctx)
+                if dd > 1e-12 or dl > 1e-12:
+                    chk.violation("sd:cp29:composed", "SpectralDensity [%s, CP29] declared in %s: data differ from the sum of the two components built "
+                                  "alone by %.3g (relative), lamb %r vs %r" % (o["ftype"], ctx, dd, comp.lamb, alone_o.lamb + alone_c.lamb),
+                                  "monitor", inp)
+        except Exception as e:
+            chk.violation("specdens:cp29_exception", "CP29 spectral density raised %r" % (e,), "monitor", inp)
+
+
 def main():
     chk = cm.Check(PID, args.tier)
     chk.rule = ("random programs: trees of + over 2-6 components (OverdampedBrownian with/without explicit Matsubara count, "
@@ -485,7 +574,7 @@ def main():
                 "temperature; non-trivial: >=2 leaves and >=2 distinct component types; distinct by program")
     chk.assumptions = ["the data of one component built alone by the implementation is the oracle `gen` of the model (exact rationals at 5 "
                        "complex sample points)", "measured reorganisation energy and Fourier-part parity are validated numerically only "
-                       "(2% / 1e-9), not proved", "B777 and CP29 types are not exercised (they need further parameters; CP29 prints)",
+                       "(2% / 1e-9), not proved", "B777 is exercised in its alternative form only (the default form needs numpy.math); CP29 only as a SpectralDensity (known findings sd:cp29:*); CorrelationFunction of types B777 / CP29 are not exercised",
                        "static tie: CorrelationFunction.__init__ (initial fields, parameter loop, dispatch loop), the bookkeeping of every _make_xxx, "
                        "_set_temperature_and_cutoff_time, __add__/__iadd__/add_to_data/add_to_data2 of CorrelationFunction and SpectralDensity are "
                        "matched statement by statement against templates (harness/translate_c09.py) and their operands proved to be the "
@@ -504,6 +593,7 @@ def main():
         cases = [gen_case(r, k) for k in range(n)]
         run(chk, cases)
         extra_monitors(chk, args.tier)
+        cp29_monitors(chk, args.tier)
     chk.finish()
 
 
